@@ -400,6 +400,10 @@ func (lc *LocalClient) FullNamespacePath(path string) (string, error) {
 		log.Warn("Failed to join path: %s: %v", path, err)
 		return "", fmt.Errorf("failed to join path: %s: %w", path, err)
 	}
+	if relPath == "." {
+		// the path resolves to the storage root itself: appending the suffix would name a file next to it
+		return "", fmt.Errorf("invalid path: %s", path)
+	}
 	fullPath := filepath.Join(lc.storagePath, relPath) + lc.FileSuffix
 	return fullPath, nil
 }
